@@ -9,8 +9,9 @@ from .lib import uf, ListV
 
 
 class ObjType:
-    def __init__(self, name, pyclass=None, base=None, fields=None, ghost=None, config=None):
+    def __init__(self, name, pyclass=None, base=None, fields=None, ghost=None, config=None, ext_methods=None):
         self.name, self.pyclass, self.base = name, pyclass, base
+        self.ext_methods = dict(ext_methods or {})
         self.fields = dict(fields or {})
         self.ghost = dict(ghost or {})
         self.config = list(config or [])
@@ -35,7 +36,7 @@ class Contract:
     def __init__(self, key, types=None, returns=None, requires=(), ensures=(), modifies=(), raises=None,
                  decreases=None, ghost_exit=None, bitvector=None, pure=False, variants=None, notes="",
                  kwargs_types=None, havoc_result=True, max_paths=400, loops=None, allow_global_writes=(),
-                 hint_terms=(), use_lemmas=()):
+                 hint_terms=(), use_lemmas=(), reads=(), trusted=False):
         self.key = key
         self.types = dict(types or {})
         self.returns = returns
@@ -53,6 +54,8 @@ class Contract:
         self.loops = loops or {}
         self.allow_global_writes = allow_global_writes
         self.hint_terms = list(hint_terms)
+        self.reads = list(reads)
+        self.trusted = trusted
         self.use_lemmas = use_lemmas if isinstance(use_lemmas, dict) else {"": list(use_lemmas)}
 
     @property
@@ -380,7 +383,32 @@ def _sp_cat(eng, args, kw, n):
     return P(ty, parts[0] if len(parts) == 1 else z3.Concat(*parts))
 
 
-SPEC_BUILTINS = {"cat": _sp_cat, "implies": _sp_implies, "iff": _sp_iff, "dom": _sp_dom, "bit": _sp_bit, "pow2": _sp_pow2,
+def _sp_unit_if(eng, args, kw, n):
+    """unit_if(c, x): [x] if c else []  (as a sequence value)"""
+    c = eng.truth(args[0])
+    x = args[1]
+    if isinstance(x, Conc):
+        x = P(eng.conc_type(x), eng.term(x))
+    if isinstance(x, StrOfInt):
+        x = P(STR, eng.term(x, STR))
+    st = SeqT(x.ty)
+    return P(st, z3.If(c, z3.Unit(x.term), z3.Empty(sort_of(st))))
+
+
+def _sp_seq(eng, args, kw, n):
+    sq = lib.seq_of(eng, args[0])
+    if sq is None:
+        raise Unsupported("seq() of %r" % (args[0],))
+    return sq
+
+
+def _sp_has(eng, args, kw, n):
+    """has(s, x): x occurs in sequence s"""
+    sq = lib.seq_of(eng, args[0])
+    return P(BOOL, z3.Contains(sq.term, z3.Unit(eng.term(args[1], sq.ty.args[0]))))
+
+
+SPEC_BUILTINS = {"cat": _sp_cat, "unit_if": _sp_unit_if, "seq": _sp_seq, "has": _sp_has, "implies": _sp_implies, "iff": _sp_iff, "dom": _sp_dom, "bit": _sp_bit, "pow2": _sp_pow2,
                  "B": _sp_B, "V": _sp_V, "binfmt": _sp_binfmt, "sibling": _sp_sibling, "size": _sp_size,
                  "inv": _sp_inv, "setadd": _sp_setadd}
 
